@@ -564,6 +564,15 @@ impl Oracle {
                     if self.place[*b] == Place::Member {
                         self.intervene(true);
                         mp_level_paint = true;
+                    } else if !self.hidden_status[*b] {
+                        // standalone bar: text lines drawn while not even the first line of its frame
+                        // fits the height (Coq: the class NoTextCut excludes, C19_text_cut_refuted)
+                        let g = self.cur_getters(*b);
+                        if let Some(l) = render_expected(&self.tmpl[*b], &g).first() {
+                            if wrap_rows(l, self.w).len() > self.h {
+                                self.text_without_bar = true;
+                            }
+                        }
                     }
                     let ls: Vec<&str> = m.lines().collect();
                     if ls.is_empty() {
